@@ -786,7 +786,7 @@ fn after_pre<S: Sut>(fresh: &S, s: &S, pre: &[String], cont_depth: usize, st: &m
     }
 }
 
-fn pre_tree<S: Sut>(fresh: &S, s: &S, added: Option<bool>, depth: usize, hist: &mut Vec<String>, cont_depth: usize, st: &mut Stats) {
+fn pre_tree<S: Sut>(fresh: &S, s: &S, added: Option<bool>, depth: usize, hist: &mut Vec<String>, trail: &mut Vec<(usize, Vec<u32>)>, cont_depth: usize, st: &mut Stats) {
     // is_empty contract
     if let Some(a) = added {
         if s.is_empty() == a {
@@ -844,14 +844,48 @@ fn pre_tree<S: Sut>(fresh: &S, s: &S, added: Option<bool>, depth: usize, hist: &
                     st.viols.push((sig, format!("{}: mutating a clone changed the original", s.name()), json!({"structure": s.name(), "history": hist.clone(), "op_on_clone": s.op_name(op)})));
                 }
             }
-            if tail == Tail::Max && tr.iter().all(|d| d.arity == 1 || d.pick == 0) {
-                continue; // no RNG involved (or same picks): same successor as Tail::Zero
-            }
-            if let Ok(added2) = r {
-                hist.push(if tr.is_empty() { s.op_name(op) } else { format!("{} rng={:?}", s.op_name(op), tr.iter().map(|d| d.pick).collect::<Vec<_>>()) });
-                // vice versa: `s` stays behind as the untouched copy of `c`'s past
-                pre_tree(fresh, &c, added2, depth - 1, hist, cont_depth, st);
-                hist.pop();
+            // every state of this tree is a clone whose relatives (its ancestors) are alive. The same history replayed on an
+            // instance without any clone relative (fresh + trail, nothing cloned on the way) must give the same result for
+            // this operation: same panic status, same observations - a structure must not behave differently because copies exist
+            {
+                let picks: Vec<u32> = tr.iter().map(|d| d.pick).collect();
+                let mut solo = fresh.clone();
+                let mut replay_ok = true;
+                for (o, p) in trail.iter() {
+                    chooser::begin(p, Tail::Zero);
+                    replay_ok &= apply_caught(&mut solo, *o).is_ok();
+                    chooser::end();
+                }
+                if replay_ok {
+                    chooser::begin(&picks, Tail::Zero);
+                    let r_solo = apply_caught(&mut solo, op);
+                    chooser::end();
+                    let differs = match (&r, &r_solo) {
+                        (Ok(_), Ok(_)) => c.obs() != solo.obs(),
+                        (Err(_), Err(_)) => false,
+                        _ => true,
+                    };
+                    if differs {
+                        let sig = format!("{} behaves differently when clones exist", s.name().split(' ').next().unwrap());
+                        if !st.viols.iter().any(|v| v.0 == sig) {
+                            st.viols.push((sig, format!("{}: {} on a clone (its ancestors alive) {} but on an instance that replayed the same history without any clone {}", s.name(), s.op_name(op),
+                                match &r { Ok(_) => "returns".to_string(), Err(p) => format!("panics ({})", p) }, match &r_solo { Ok(_) => "returns (with other observations if both return)".to_string(), Err(p) => format!("panics ({})", p) }),
+                                json!({"structure": s.name(), "history": hist.clone(), "op": s.op_name(op)})));
+                        }
+                    }
+                }
+                if tail == Tail::Max && tr.iter().all(|d| d.arity == 1 || d.pick == 0) {
+                    continue; // no RNG involved (or same picks): same successor as Tail::Zero
+                }
+                if let Ok(added2) = r {
+                    hist.push(if tr.is_empty() { s.op_name(op) } else { format!("{} rng={:?}", s.op_name(op), picks) });
+                    trail.push((op, picks));
+                    // vice versa: `s` stays behind as the untouched copy of `c`'s past
+                    pre_tree(fresh, &c, added2, depth - 1, hist, trail, cont_depth, st);
+                    trail.pop();
+                    hist.pop();
+                }
+                continue;
             }
         }
     }
@@ -860,7 +894,8 @@ fn pre_tree<S: Sut>(fresh: &S, s: &S, added: Option<bool>, depth: usize, hist: &
 fn run_sut<S: Sut>(fresh: S, pre_depth: usize, cont_depth: usize) -> (String, Stats) {
     let mut st = Stats::default();
     let mut hist = vec![];
-    pre_tree(&fresh, &fresh, Some(false), pre_depth, &mut hist, cont_depth, &mut st);
+    let mut trail = vec![];
+    pre_tree(&fresh, &fresh, Some(false), pre_depth, &mut hist, &mut trail, cont_depth, &mut st);
     // long deterministic pre-histories
     for variant in 0..3 {
         let seq = det_seq(fresh.n_ops(), 1000, variant);
